@@ -100,6 +100,15 @@ def build_pair(case):
     return ref, apply_shift(ref, case["shift"])
 
 
+def build_args(case):
+    """build_pair, and for a case marked `alias` whose two images are identical THE SAME OBJECT is handed over as
+    both arguments (round 7; run_numpy / run_torch keep the identity, also for the spectra / tensors made from it)"""
+    ref, im = build_pair(case)
+    if case.get("alias") and ref.dtype == im.dtype and np.array_equal(ref, im):
+        im = ref
+    return ref, im
+
+
 def dtype_eps(case) -> float:
     dt = case.get("np_dtype" if case["est"] == "numpy" else "dtype", "float64")
     return 1.2e-7 if dt == "float32" else 2.3e-16
@@ -128,7 +137,9 @@ def circ(d: float, n: int) -> float:
 # --------------------------------------------------------------------------- running the implementation
 def run_numpy(ref, im, up, ms=None, fft_in=False, rsi=False, fft_out=False):
     from quantem.core.utils.imaging_utils import cross_correlation_shift
-    a, b = (np.fft.fft2(ref), np.fft.fft2(im)) if fft_in else (ref, im)
+    # `im is ref` (round 7: the caller registers an array against ITSELF) is kept: the same object is passed twice
+    a = np.fft.fft2(ref) if fft_in else ref
+    b = a if im is ref else (np.fft.fft2(im) if fft_in else im)
     with np.errstate(all="ignore"):
         out = cross_correlation_shift(a, b, upsample_factor=up, max_shift=ms, return_shifted_image=rsi,
                                       fft_input=fft_in, fft_output=fft_out)
@@ -143,12 +154,13 @@ def run_torch(ref, im, up, mode="real", dtype="float64"):
     from quantem.core.utils import imaging_utils as iu
     td = torch.float64 if dtype == "float64" else torch.float32
     a = torch.tensor(np.ascontiguousarray(ref), dtype=td)
-    b = torch.tensor(np.ascontiguousarray(im), dtype=td)
+    b = a if im is ref else torch.tensor(np.ascontiguousarray(im), dtype=td)
     if mode == "real":
         r = iu.cross_correlation_shift_torch(a, b, upsample_factor=up)
         return [float(r[0]), float(r[1])], None
     # Fourier-space entry point: un-centred result
-    r = iu.align_images_fourier_torch(torch.fft.fft2(a), torch.fft.fft2(b), up)
+    Fa = torch.fft.fft2(a)
+    r = iu.align_images_fourier_torch(Fa, Fa if b is a else torch.fft.fft2(b), up)
     M, N = ref.shape
     return [circ(float(r[0]), M), circ(float(r[1]), N)], None
 
@@ -334,6 +346,8 @@ def gen_cases(ctx: Ctx):
         M, N = shape or r.choice(SHAPES)
         c = {"est": est, "img": "bl", "seed": r.randrange(1 << 30), "M": M, "N": N, "up": up,
              "shift": shift_of(kind, M, N), "kind": kind}
+        if kind == "zero" and c["seed"] % 2 == 0:
+            c["alias"] = True       # round 7: identical images as THE SAME OBJECT (build_args); odd seeds: an equal copy
         c.update(kw)
         return c
 
@@ -360,6 +374,8 @@ def gen_cases(ctx: Ctx):
     for shape in SHAPES:
         for up in UPS:
             cases.append(one("numpy", "zero", up, shape))
+            cases[-1]["rsi"] = True                          # round 7: the aligned image of identical images is judged too
+            cases[-1]["fft_out"] = (cases[-1]["seed"] // 2) % 2 == 0
             if up in (1, 3, 4, 16):
                 cases.append(one("torch", "zero", up, shape))
     # round 4: images with a large mean (0 .. 1e5 x their contrast), float32 and float64, both estimators: the
@@ -398,7 +414,7 @@ def gen_cases(ctx: Ctx):
 
 
 def run_case(case):
-    ref, im = build_pair(case)
+    ref, im = build_args(case)
     res, img = run_est(case, ref, im)
     sw = dict(case)
     sw["rsi"] = False
@@ -460,6 +476,8 @@ def check_oracle(ctx: Ctx):
                 case["mean_ratio"], case.get("np_dtype" if case["est"] == "numpy" else "dtype", "float64"), m_)) for k, m_ in bad]
         else:
             ctx.dist("oracle/mean=small")
+        if case["kind"] == "zero":
+            ctx.dist("oracle/identical/%s" % ("same-object" if case.get("alias") else "equal-copy"))
         beyond = abs(case["shift"][0]) > case["M"] / 2 or abs(case["shift"][1]) > case["N"] / 2
         if beyond:
             ctx.dist("oracle/shift-beyond-half-size")
@@ -622,6 +640,8 @@ def gen_corr_cases(ctx: Ctx):
                         return k / den
             s = [draw(M), draw(N)]
         c = {"est": est, "img": img, "seed": r.randrange(1 << 30), "M": M, "N": N, "up": up, "shift": s, "kind": kind}
+        if kind == "zero" and c["seed"] % 2 == 0:
+            c["alias"] = True       # round 7: the implementation is run on ONE object passed twice; the model is a function of values
         if ms:
             rad = admit_radius(c)
             if r.random() < 0.5:
@@ -655,7 +675,7 @@ def check_correspondence(ctx: Ctx, cases=None):
     exprs, meta = [], []
     for case in cases:
         M, N, up = case["M"], case["N"], case["up"]
-        ref, im = build_pair(case)
+        ref, im = build_args(case)
         with Capture() as cap:
             res, _ = run_est(case, ref, im)
         # the correlation array, exactly as the implementation forms it (same numpy calls: the zero-frequency
@@ -762,7 +782,8 @@ def check_correspondence(ctx: Ctx, cases=None):
                     if abs(abs(mres[ax]) - n / 2.0) > 1e-3 and abs(mres[ax] - res[ax]) > tol:
                         problems.append("centred representative, axis %d: impl %r model %r" % (ax, res[ax], mres[ax]))
         ctx.cov["traces_validated_against_impl"] += 1
-        ctx.dist("corr/%s/%s/%s%s" % (up_class(case), case["kind"], case["img"], "/large-mean" if case.get("mean_ratio") else ""))
+        ctx.dist("corr/%s/%s/%s%s%s" % (up_class(case), case["kind"], case["img"], "/large-mean" if case.get("mean_ratio") else "",
+                                        "/same-object" if case.get("alias") else ""))
         ctx.count(("corr", json.dumps(public(case), sort_keys=True)), nontrivial=case["kind"] != "zero" or up > 1)
         if problems:
             nd += 1
@@ -861,7 +882,7 @@ def check_coordinates(ctx: Ctx):
             case = {"est": est, "img": "bl", "seed": 12345 + up, "M": max(M, 8), "N": max(N, 8), "up": up,
                     "shift": [0.0, 0.0], "kind": "zero"}
             ref = make_image("bl", case["seed"], case["M"], case["N"])
-            res, _ = run_est(case, ref, ref)
+            res, _ = run_est(case, ref, ref.copy())
             obad = oracle(dict(case), ref, ref, res, None, None)
             ctx.violation(key, "the upsampling kernel does not sample the correlation where the model "
                           "(C13_upsample_samples_interpolant) says: %s [shape %s, up %d, peak estimate %s]"
@@ -1040,9 +1061,13 @@ def check_every_factor(ctx: Ctx, geom_vals):
             case = {"est": est, "img": "bl", "seed": r.randrange(1 << 30), "M": M, "N": N, "up": up,
                     "shift": [0.0, 0.0], "kind": "zero"}
             ref = make_image("bl", case["seed"], M, N)
-            res, _ = run_est(case, ref, ref.copy())
-            ob = oracle(case, ref, ref, res, None, None)
-            ctx.dist("every-factor/%s" % est)
+            if case["seed"] % 2 == 0:
+                case["alias"] = True                         # the same object as both arguments
+            if est == "numpy":
+                case["rsi"], case["fft_out"] = True, (case["seed"] // 2) % 2 == 0
+            res, img_ = run_est(case, ref, ref if case.get("alias") else ref.copy())
+            ob = oracle(case, ref, ref, res, img_, None)
+            ctx.dist("every-factor/%s/%s" % (est, "same-object" if case.get("alias") else "equal-copy"))
             ctx.count(("every-factor", json.dumps(public(case), sort_keys=True)), nontrivial=up > 1)
             for key, msg in ob:
                 nbad += 1
@@ -1073,8 +1098,10 @@ def check_identical_window(ctx: Ctx):
         case = {"est": est, "img": img, "seed": r.randrange(1 << 30), "M": M, "N": N, "up": up,
                 "shift": [0.0, 0.0], "kind": "zero"}
         ref = make_image(img, case["seed"], M, N)
+        if case["seed"] % 2 == 0:
+            case["alias"] = True                             # the same object as both arguments
         with Capture() as cap:
-            res, _ = run_est(case, ref, ref.copy())
+            res, _ = run_est(case, ref, ref if case.get("alias") else ref.copy())
         calls = cap.np_calls if est == "numpy" else cap.t_calls
         problems = []
         if len(calls) != 1:
@@ -1100,6 +1127,7 @@ def check_identical_window(ctx: Ctx):
                 break
         ctx.cov["traces_validated_against_impl"] += 1
         ctx.dist("identical-window/%s/up=%d" % (est, up))
+        ctx.dist("identical-window/%s" % ("same-object" if case.get("alias") else "equal-copy"))
         ctx.count(("identical-window", json.dumps(public(case), sort_keys=True)), nontrivial=True)
         if problems:
             nbad += 1
@@ -1599,6 +1627,259 @@ def check_histories(ctx: Ctx):
             "%d calls, %d failed clauses" % (n_plain + n_edit + len(fixed), n_edit, nedits, ncalls, nbad))
 
 
+# --------------------------------------------------------------------------- round 7: aliasing between the two arguments
+ALIAS_FORMS = {"real": ["same-object", "identical-views", "array-and-view", "overlapping-views"],
+               "fourier": ["same-object", "identical-views", "array-and-view", "inplace-spectrum"]}
+ALIAS_VIEWS = {"numpy": ["slice", "view", "ellipsis", "reshape"], "torch": ["slice", "view", "detach", "from_numpy"]}
+NP_FLAGS = [(False, False), (True, False), (True, True), (False, True)]      # (return_shifted_image, fft_output)
+
+
+def _view_of(x, how, M, N):
+    """another OBJECT on the same memory, same shape and contents"""
+    if isinstance(x, np.ndarray):
+        return {"slice": lambda: x[:], "view": lambda: x.view(), "ellipsis": lambda: x[...],
+                "reshape": lambda: x.reshape(M, N)}[how]()
+    import torch
+    return {"slice": lambda: x[:], "view": lambda: x.view(M, N), "detach": lambda: x.detach(),
+            "from_numpy": lambda: torch.from_numpy(x.numpy())}[how]()
+
+
+def alias_objects(case):
+    """(a, b, ref, im, shift): the two ARGUMENT objects, which share memory, the private copies of what they hold
+    (images, real space) and the applied translation im[x] = ref[x - shift].
+      same-object        f(x, x)
+      identical-views    two distinct view objects of one buffer (x[:], x.view(), x[...], reshape; torch: detach, from_numpy)
+      array-and-view     the buffer itself and a view of all of it (either role)
+      overlapping-views  two windows of one (2M, 2N) buffer that holds the image periodically continued: the window at
+                         offset p holds the image rolled by -p, so the windows are integer translates of each other
+                         (offsets equal: identical contents) and overlap in memory
+      inplace-spectrum   the caller transformed its complex image buffer IN PLACE (fft2(c, out=c)) and hands over the
+                         spectrum and the buffer it was computed from: two names of one object"""
+    M, N = case["M"], case["N"]
+    est, dom, form = case["est"], case["dom"], case["form"]
+    base = make_image(case.get("img", "bl"), case["seed"], M, N)
+    if est == "torch":
+        import torch
+    if form == "overlapping-views":
+        big = np.tile(base, (2, 2))
+        big = big if est == "numpy" else torch.tensor(big)
+        (p0, p1), (q0, q1) = case["offs"]
+        a, b = big[p0:p0 + M, p1:p1 + N], big[q0:q0 + M, q1:q1 + N]
+        ref, im = np.roll(base, (-p0, -p1), axis=(0, 1)), np.roll(base, (-q0, -q1), axis=(0, 1))
+        return a, b, ref, im, [float(p0 - q0), float(p1 - q1)]
+    if form == "inplace-spectrum":
+        if est == "numpy":
+            c = base.astype(np.complex128)
+            F = np.fft.fft2(c, out=c)
+        else:
+            c = torch.tensor(base).to(torch.complex128)
+            F = torch.fft.fft2(c, out=c)
+        return F, c, base, base.copy(), [0.0, 0.0]
+    x = np.array(base) if est == "numpy" else torch.tensor(base)
+    if dom == "fourier":
+        x = np.fft.fft2(x) if est == "numpy" else torch.fft.fft2(x)
+    v = case.get("views", ["slice", "view"])
+    if form == "same-object":
+        a = b = x
+    elif form == "identical-views":
+        a, b = _view_of(x, v[0], M, N), _view_of(x, v[1], M, N)
+    else:
+        a, b = x, _view_of(x, v[1], M, N)
+        if v[0] == "second":
+            a, b = b, a
+    return a, b, base, base.copy(), [0.0, 0.0]
+
+
+def _alias_call(case, a, b, c):
+    """one call on the argument objects a, b; returns (shift, aligned image or None, raised or None)"""
+    from quantem.core.utils import imaging_utils as iu
+    M, N = case["M"], case["N"]
+    try:
+        if case["est"] == "numpy":
+            with np.errstate(all="ignore"):
+                out = iu.cross_correlation_shift(a, b, upsample_factor=c["up"], max_shift=c.get("ms"),
+                                                 return_shifted_image=c["rsi"], fft_input=case["dom"] == "fourier",
+                                                 fft_output=c["fft_out"])
+            img = None
+            if c["rsi"]:
+                out, img = out
+                img = np.array(img)
+            return [float(out[0]), float(out[1])], img, None
+        if case["dom"] == "real":
+            out = iu.cross_correlation_shift_torch(a, b, upsample_factor=c["up"])
+            return [float(out[0]), float(out[1])], None, None
+        out = iu.align_images_fourier_torch(a, b, c["up"])
+        return [circ(float(out[0]), M), circ(float(out[1]), N)], None, None
+    except Exception as e:  # noqa: BLE001
+        return [float("nan"), float("nan")], None, "%s: %s" % (type(e).__name__, str(e)[:200])
+
+
+def _spectrum_like(case, arr):
+    """a fresh, unshared argument holding the image `arr` in the domain / library of the case"""
+    if case["est"] == "numpy":
+        return np.fft.fft2(arr) if case["dom"] == "fourier" else np.array(arr)
+    import torch
+    t = torch.tensor(np.ascontiguousarray(arr))
+    return torch.fft.fft2(t) if case["dom"] == "fourier" else t
+
+
+def alias_case(case):
+    """every clause on calls whose two arguments share memory.  Returns [(key, msg, step)].
+      step 'aliased'  the call f(a, b): shift = the applied translation (zero for identical contents), aligned image =
+                      the second image translated by it = the reference, in the requested domain; the call with the
+                      roles exchanged f(b, a) negates the shift
+      step 'again'    the same two objects once more with another factor / output combination (every call is covered)
+      step 'later'    one of the two objects registered against a fresh, unshared translate of what it is supposed to
+                      hold: 'returns the applied translation' for that later call is how a modified input shows"""
+    M, N = case["M"], case["N"]
+    a, b, ref, im, shift = alias_objects(case)
+    kind = "zero" if (circ(shift[0], M) == 0 and circ(shift[1], N) == 0) else "int"
+    base = {"est": case["est"], "M": M, "N": N, "img": case.get("img", "bl"), "seed": case["seed"]}
+    bad = []
+
+    def judge(step, c, first, second, s, k, res, img, raised, res_swap=None):
+        oc = dict(base, up=c["up"], shift=list(s), kind=k, fft_out=c.get("fft_out", False))
+        if c.get("ms") is not None:
+            oc["ms"], oc["ms_kind"] = c["ms"], c.get("ms_kind", "room")
+        if raised:
+            oc["_raised"] = raised
+        for key, msg in oracle(oc, first, second, res, img, res_swap):
+            what = {"aliased": "the two arguments share memory (%s)" % case["form"],
+                    "again": "second call on the same two arguments, which share memory (%s)" % case["form"],
+                    "later": "later call on one of two arguments that were passed together before and share memory (%s), "
+                             "against a fresh translate" % case["form"]}[step]
+            bad.append(("aliased-arguments-%s-%s%s" % (case["form"], "" if step == "aliased" else step + "-call-", key),
+                        "%s [%s %s-space inputs, %s]: %s" % (what, case["est"], case["dom"],
+                                                            ", ".join("%s=%r" % kv for kv in sorted(c.items())), msg), step))
+
+    c = case["call"]
+    res, img, raised = _alias_call(case, a, b, c)
+    res_swap = None
+    if a is not b and not raised:
+        res_swap, _, r2 = _alias_call(case, b, a, dict(c, rsi=False, fft_out=False))
+        if r2:
+            raised = "(roles exchanged) " + r2
+    judge("aliased", c, ref, im, shift, kind, res, img, raised, res_swap)
+    if not bad and case.get("again"):
+        c2 = case["again"]
+        first, second, s2, x, y = (ref, im, shift, a, b) if not c2.get("swap") else (im, ref, [-shift[0], -shift[1]], b, a)
+        res2, img2, raised2 = _alias_call(case, x, y, c2)
+        judge("again", {k_: v for k_, v in c2.items() if k_ != "swap"}, first, second, s2, kind, res2, img2, raised2)
+    if not bad and case.get("later"):
+        c3 = dict(case["later"])
+        role, s3 = c3.pop("role"), c3.pop("shift")
+        k3 = c3.pop("kind")
+        obj, held = ((a, ref), (b, im))[c3.pop("which")]
+        if role == 0:       # the shared object is the reference, a fresh translate of its contents the second image
+            second = apply_shift(held, s3)
+            res3, img3, raised3 = _alias_call(case, obj, _spectrum_like(case, second), c3)
+            judge("later", c3, held, second, s3, k3, res3, img3, raised3)
+        else:               # the shared object is the second image: it is the translate by -s3 of the fresh reference
+            first = apply_shift(held, s3)
+            res3, img3, raised3 = _alias_call(case, _spectrum_like(case, first), obj, c3)
+            judge("later", c3, first, held, [-s3[0], -s3[1]], k3, res3, img3, raised3)
+    return bad
+
+
+def gen_alias_cases(ctx: Ctx):
+    r = ctx.rng
+    cases = []
+
+    def call_of(est, M, N, shift, flags=None):
+        c = {"up": r.choice(UPS)}
+        if est == "numpy":
+            c["rsi"], c["fft_out"] = flags if flags is not None else r.choice(NP_FLAGS)
+            if r.random() < 0.25:
+                tmp = {"M": M, "N": N, "shift": shift}
+                c["ms"] = pick_max_shift(r, tmp)
+                c["ms_kind"] = tmp["ms_kind"]
+        return c
+
+    def one(est, dom, form, flags=None, up=None):
+        M, N = r.choice(SHAPES)
+        case = {"est": est, "dom": dom, "form": form, "img": r.choice(["bl", "bl", "bl", "int"]), "seed": r.randrange(1 << 30),
+                "M": M, "N": N}
+        shift = [0.0, 0.0]
+        if form == "overlapping-views":
+            p = [r.randint(0, M), r.randint(0, N)]
+            q = p[:] if r.random() < 0.15 else [r.randint(0, M), r.randint(0, N)]      # equal offsets: identical windows
+            case["offs"] = [p, q]
+            shift = [float(p[0] - q[0]), float(p[1] - q[1])]
+        elif form == "identical-views":
+            case["views"] = [r.choice(ALIAS_VIEWS[est]), r.choice(ALIAS_VIEWS[est])]
+        elif form == "array-and-view":
+            case["views"] = [r.choice(["first", "second"]), r.choice(ALIAS_VIEWS[est])]    # which role the buffer itself takes
+        case["call"] = call_of(est, M, N, shift, flags)
+        if up is not None:
+            case["call"]["up"] = up
+        if r.random() < 0.6:
+            case["again"] = dict(call_of(est, M, N, shift), swap=r.random() < 0.4)
+            case["again"].pop("ms", None)
+            case["again"].pop("ms_kind", None)
+        # the later call: an integer or dyadic sub-pixel translate, at least one pixel away from 'no shift'
+        k3 = r.choice(["int", "int", "sub"])
+        for _ in range(50):
+            if k3 == "int":
+                s3 = [float(r.randint(-M, 2 * M)), float(r.randint(-N, 2 * N))]
+            else:
+                den = r.choice([4, 8, 16])
+                s3 = [r.randint(-M * den, M * den) / den, r.randint(-N * den, N * den) / den]
+            if _far(s3, [0.0, 0.0], M, N):
+                break
+        else:
+            s3, k3 = [1.0, 0.0], "int"
+        if case["img"] == "int" and k3 == "sub":
+            s3, k3 = [float(round(s3[0])) + 1.0, float(round(s3[1]))], "int"     # integer images are not band limited
+        later = call_of(est, M, N, s3)
+        later.pop("ms", None)
+        later.pop("ms_kind", None)
+        later.update({"role": r.randint(0, 1), "which": r.randint(0, 1), "shift": s3, "kind": k3})
+        case["later"] = later
+        return case
+
+    # every (library, domain, form, output combination) once, every factor on the same object with the aligned image
+    for est in ("numpy", "torch"):
+        for dom in ("real", "fourier"):
+            for form in ALIAS_FORMS[dom]:
+                for flags in (NP_FLAGS if est == "numpy" else [None]):
+                    cases.append(one(est, dom, form, flags))
+    for up in UPS:
+        for dom in ("real", "fourier"):
+            cases.append(one("numpy", dom, "same-object", (True, up % 2 == 0), up))
+            cases.append(one("torch", dom, "same-object", None, up))
+    for _ in range(ctx.budget(70, 1000)):
+        est = r.choice(["numpy", "numpy", "torch"])
+        dom = r.choice(["real", "real", "fourier"])
+        cases.append(one(est, dom, r.choice(ALIAS_FORMS[dom])))
+    return cases
+
+
+def check_aliasing(ctx: Ctx):
+    """the property is stated for 'an image and a circularly translated copy' / 'identical images': nothing in it
+    requires the two ARGUMENTS to be separate objects or separate memory.  A caller that registers a frame against
+    itself, two windows of one periodically continued buffer, a buffer and a view of it, or the spectrum it computed
+    in place is inside the quantifier; every clause is judged on such calls (alias_case)."""
+    cases = gen_alias_cases(ctx)
+    nbad = ncalls = 0
+    for case in cases:
+        bad = alias_case(case)
+        ncalls += 1 + (case["form"] not in ("same-object", "inplace-spectrum")) + ("again" in case) + ("later" in case)
+        contents = "identical" if case["form"] != "overlapping-views" or case["offs"][0] == case["offs"][1] else "translated"
+        ctx.dist("alias/%s/%s/%s" % (case["est"], case["dom"], case["form"]))
+        ctx.dist("alias-contents/%s" % contents)
+        c = case["call"]
+        if case["est"] == "numpy":
+            ctx.dist("alias-call/numpy/%s%s%s%s" % ("F" if case["dom"] == "fourier" else "r", "+img" if c["rsi"] else "",
+                                                      "(F)" if c["fft_out"] else "", "+max_shift" if c.get("ms") else ""))
+        ctx.dist("alias-call/up=%d" % c["up"])
+        ctx.count(("alias", json.dumps(case, sort_keys=True)), nontrivial=True)
+        for key, msg, step in bad:
+            nbad += 1
+            ctx.violation(key, msg, {"kind": "alias", "case": case, "failing_step": step})
+    ctx.sample({"kind": "alias", "case": cases[len(cases) // 2]})
+    ctx.log("aliasing between the two arguments: %d cases, %d calls, %d failed clauses" % (len(cases), ncalls, nbad))
+
+
 # --------------------------------------------------------------------------- entry points
 def run(ctx: Ctx):
     ctx.hash_sources("core/utils/imaging_utils.py",
@@ -1639,7 +1920,21 @@ def run(ctx: Ctx):
         "(identical images), integer or dyadic sub-pixel and at least one pixel away from the previous one; roles alternate (40 % "
         "of the calls take the arrays in the other order); every call is judged on the contents at the time of that call "
         "(input_distribution history-overwrite/..., history-real-pair/... = consecutive real-space calls by whether the same object "
-        "is the reference and whether it was overwritten in between).")
+        "is the reference and whether it was overwritten in between). Round 7: ALIASING between the two arguments (check_aliasing, "
+        "138 cases / ~430 calls per quick run, 1000 + 68 cases thorough): the very same object as both arguments, two distinct view "
+        "objects of one buffer (x[:], x.view(), x[...], reshape; torch: x[:], view, detach, from_numpy of the same memory), a buffer "
+        "and a view of all of it in either role, two overlapping windows of one (2M, 2N) buffer holding the periodically continued "
+        "image (integer translates of each other by the offset difference, anywhere in [-n, n]; equal offsets = identical "
+        "contents), and the spectrum a caller computed IN PLACE (fft2(c, out=c)) together with the buffer it was computed from; "
+        "NumPy and torch, real-space and Fourier-space inputs, every return_shifted_image / fft_output combination at least once "
+        "per (library, domain, form), every factor in {1,2,3,4,8,16,64} on the same object with the aligned image, max_shift in "
+        "25 % of the NumPy calls; judged per case: the aliased call (shift, aligned image in the requested domain, roles exchanged "
+        "negate), in 60 % a second call on the same two objects with other options, and a LATER call that registers one of the "
+        "two objects against a fresh unshared translate (integer or sub-pixel, >= 1 px) of what it is supposed to hold. In the "
+        "oracle stream, the every-factor block, the identical-window block and the correspondence cases, identical images are "
+        "handed over as ONE object when the image seed is even and as an equal copy when it is odd (input_distribution "
+        "oracle/identical/..., every-factor/.../same-object, alias/...); the fixed identical-image grid (10 shapes x 7 factors) and the "
+        "every-factor block now request the aligned image (real / Fourier output alternating).")
     ctx.assumptions += [
         "numpy.fft / torch.fft compute the DFT (fft2/ifft2) to float precision; np.roll is an exact circular shift",
         "the upsampled window values are an oracle input of the model (captured from the implementation); what is "
@@ -1671,6 +1966,10 @@ def run(ctx: Ctx):
         "an array the caller overwrites in place between two calls is, for the next call, an input like any other: the property is "
         "stated per call on the images passed to it, so the expected shift of a call after an overwrite is that of the NEW contents; "
         "the caller keeps an image and its spectrum consistent (both are refreshed by an overwrite)",
+        "the property is stated on the two IMAGES (an image and its translate / identical images), not on how the caller stores "
+        "them: arguments that are the same object, views of one buffer or overlapping windows of one buffer are inside the "
+        "quantifier, and every clause is judged on them with the same tolerances as on separate arrays; 'the inputs are not "
+        "modified' is judged only through a later registration that uses one of them (its shift / aligned image)",
         "hypotheses of the round-3 theorems that are premises on the image content, not checked on inputs: no_self_overlap "
         "(no integer translate reproduces the image) and np_/t_offsets_distinct (no translate by the sub-pixel offset of a "
         "non-centre window sample reproduces it); re additive / positive / definite and E unit-modulus are satisfiable "
@@ -1707,6 +2006,7 @@ def run(ctx: Ctx):
     geom_vals = check_coordinates(ctx)
     check_every_factor(ctx, geom_vals)
     check_correspondence(ctx)
+    check_aliasing(ctx)       # last: draws from ctx.rng after every earlier stage (their streams are unchanged)
 
 
 def replay(ctx: Ctx, path):
@@ -1725,6 +2025,14 @@ def replay(ctx: Ctx, path):
             print("FAILS [%s]: %s" % (k, msg))
         if not bad:
             print("property holds for every call of this history")
+        return 1 if bad else 0
+    if rp.get("kind") == "alias":
+        print("arguments that share memory:", case)
+        bad = alias_case(dict(case))
+        for k, msg, step in bad:
+            print("FAILS [%s]: %s" % (k, msg))
+        if not bad:
+            print("property holds for every call of this case")
         return 1 if bad else 0
     if rp.get("kind") in ("caller", "variant"):
         print("case:", case)
